@@ -243,12 +243,23 @@ def _split_top(s):
     return [x.strip() for x in out if x.strip()]
 
 
-def conv_ref(e, g):
+class Inexpressible(ToolError):
+    """the test program cannot build the borrowed view the generated signature asks for in one expression"""
+
+
+def conv_ref(e, g, depth=0):
     """expression of the generated (possibly borrowed) parameter type `g` from `e`, an expression of type &Owned"""
     g = g.strip()
     if g == "&str":
         return f"({e}).as_str()"
     if g.startswith("&["):
+        inner = g[2:-1].strip()
+        if "&" in inner:
+            # a borrowed list of borrowed elements (--ownership=borrowing: `&[&str]`): the views are built in a temporary vector,
+            # which lives long enough only when the expression is an argument itself (not the body of a closure)
+            if depth:
+                raise Inexpressible(f"a view of type {g} inside an option / result")
+            return f"&({e}).iter().map(|v| {conv_ref('v', inner, 1)}).collect::<Vec<_>>()[..]"
         return f"({e}).as_slice()"
     if g.startswith("&"):
         return f"({e})"
@@ -256,14 +267,14 @@ def conv_ref(e, g):
         return "()"
     m = re.match(r"^(?:::core::option::)?Option<(.*)>$", g, re.S)
     if m:
-        return f"({e}).as_ref().map(|v| {conv_ref('v', m.group(1))})"
+        return f"({e}).as_ref().map(|v| {conv_ref('v', m.group(1), depth + 1)})"
     m = re.match(r"^(?:::core::result::)?Result<(.*)>$", g, re.S)
     if m:
         a, b = _split_top(m.group(1))
-        return f"({e}).as_ref().map(|v| {conv_ref('v', a)}).map_err(|v| {conv_ref('v', b)})"
+        return f"({e}).as_ref().map(|v| {conv_ref('v', a, depth + 1)}).map_err(|v| {conv_ref('v', b, depth + 1)})"
     if g.startswith("("):
         parts = _split_top(g[1:-1])
-        return "(" + "".join(conv_ref(f"&({e}).{i}", p) + ", " for i, p in enumerate(parts)) + ")"
+        return "(" + "".join(conv_ref(f"&({e}).{i}", p, depth) + ", " for i, p in enumerate(parts)) + ")"
     return f"({e}).clone()"
 
 
